@@ -136,12 +136,13 @@ def check_compute(rep, rng, spec, cfg0):
         rep.violation(*v)
 
 
-def args_update_oracle(spec: Spec, cfg: dict, pre_bs, b: Batch, nc: bool):
+def args_update_oracle(spec: Spec, cfg: dict, pre_bs, b: Batch, nc: bool, post_bs=()):
     """update(b) on a metric fed `pre_bs` (`nc`: the tensors of b are non-contiguous views): shape, stride and values of the
     caller's tensors and the caller's sequences must not move.  returns (violation | None, stop, picture of the arguments before)."""
     import copy
     m = fed(spec, cfg, pre_bs)
-    ctx = {"check": "args-update", "class": spec.name, "cfg": public_cfg(cfg), "pre": [x.describe() for x in pre_bs], "batch": b.describe(), "noncontig": nc}
+    ctx = {"check": "args-update", "class": spec.name, "cfg": public_cfg(cfg), "pre": [x.describe() for x in pre_bs], "batch": b.describe(), "noncontig": nc,
+           "post": [x.describe() for x in post_bs]}
     if nc:
         b = noncontig(b, None)
     before = [(t.clone(), t.stride(), t.shape) for t in tens(b)]
@@ -152,6 +153,21 @@ def args_update_oracle(spec: Spec, cfg: dict, pre_bs, b: Batch, nc: bool):
             return (f"C11|{spec.name}.update|argument-modified", f"{spec.name}{public_cfg(cfg)}: update() modified a caller tensor", ctx), True, before
     if nb != [a for a in b.args if not isinstance(a, torch.Tensor)]:
         return (f"C11|{spec.name}.update|argument-modified", f"{spec.name}: update() modified a caller sequence", ctx), False, before
+    # the caller's tensors must also survive what happens to the metric LATER (a state that adopted an argument by
+    # reference is written through by the next in-place operation): further updates, then compute()
+    for x in post_bs:
+        try:
+            x.apply(m)
+        except Exception:  # noqa: BLE001
+            break
+    try:
+        m.compute()
+    except Exception:  # noqa: BLE001
+        pass
+    for t, (c, st, sh) in zip(tens(b), before):
+        if t.shape != sh or t.stride() != st or not torch.equal(t.to(torch.float64).nan_to_num(), c.to(torch.float64).nan_to_num()):
+            return (f"C11|{spec.name}.update|argument-modified-by-later-operation",
+                    f"{spec.name}{public_cfg(cfg)}: a tensor passed to update() was modified by later update()/compute() calls on the metric", ctx), True, before
     return None, False, before
 
 
@@ -186,7 +202,8 @@ def check_args(rep, rng, spec, cfg0):
     pre_bs = gen_stream(spec, cfg, rng, rng.choice([0, 1]))
     b = short_forms(spec.gen(rng, cfg, rng.choice(spec.sizes)), rng)
     nc = rng.random() < 0.5
-    v, stop, before = args_update_oracle(spec, cfg, pre_bs, b, nc)
+    post_bs = gen_stream(spec, cfg, rng, rng.choice([1, 2]))
+    v, stop, before = args_update_oracle(spec, cfg, pre_bs, b, nc, post_bs)
     rep.case(nontrivial_key=(spec.name, repr(public_cfg(cfg)), "args", ckey(before)))
     if v:
         rep.violation(*v)
@@ -237,7 +254,7 @@ def replay(payload) -> bool:
     elif check == "compute" and "batches" in rp:
         v = compute_oracle(spec, cfg, bl(rp["batches"]))[0]
     elif check == "args-update" and "batch" in rp:
-        v = args_update_oracle(spec, cfg, bl(rp.get("pre") or []), Batch.from_describe(rp["batch"]), bool(rp.get("noncontig")))[0]
+        v = args_update_oracle(spec, cfg, bl(rp.get("pre") or []), Batch.from_describe(rp["batch"]), bool(rp.get("noncontig")), bl(rp.get("post") or []))[0]
     elif check == "args-functional" and "batch" in rp:
         if spec.functional is None:
             raise ValueError(f"nothing to replay: {spec.name} has no functional twin")
